@@ -34,7 +34,7 @@ def meta(tier):
                         'relative-address targets are kept inside GLOBAL (the statement does not list a zone constraint for them)',
                         'reference encoding: mc/refenc.py'],
         'floors': {'evaluations': 1000, 'nontrivial': 1000, 'statuses': ['OK', 'REJECT'],
-                   'clauses': ['range', 'minmax', 'enumeration', 'zone', 'slice', 'relative']},
+                   'clauses': ['range', 'minmax', 'enumeration', 'zone', 'slice', 'relative', 'relative-in-macro']},
         'nshards': 64, 'xcheck': 16,
     }
 
@@ -246,6 +246,38 @@ def shard(acc, tier, idx, n):
                             text = 'tst ' + ', '.join([str(target)] + ['0'] * extra_bytes)
                             one(acc, isa, text, exp, 'relative', addr=addr,
                                 why=f'offset {off} outside {lo}..{hi} / {w} bits (from_end={from_end}, size {isize})')
+    macro_relative(acc, idx, n, ctr)
+
+
+def macro_relative(acc, idx, n, ctr0):
+    """(vii) the same min/max boundaries when the constrained instruction is a step of a macro: the offset is measured from
+    that step (its address / its last byte), not from the macro."""
+    ctr = ctr0
+    for (lo, hi) in ((-4, 4), (0, 7), (-8, -1)):
+        for from_end in (False, True):
+            for steps_before, steps_after in ((1, 0), (0, 1), (2, 1)):
+                ctr += 1
+                if ctr % n != idx:
+                    continue
+                relcfg = {'type': 'relative_address', 'argument': {'size': 8, 'byte_align': True, 'min': lo, 'max': hi}}
+                if from_end:
+                    relcfg['offset_from_instruction_end'] = True
+                isa = {'general': {'address_size': 16, 'endian': 'big', 'registers': ['a'], 'min_version': '0.3.0'},
+                       'operand_sets': {'rel': {'operand_values': {'r': relcfg}}},
+                       'instructions': {'nop': {'bytecode': {'value': 0, 'size': 8}},
+                                        'jre': {'bytecode': {'value': 0xEF, 'size': 8}, 'operands': {'count': 1, 'operand_sets': {'list': ['rel']}}}},
+                       'macros': {'mjre': [{'operands': {'count': 1, 'operand_sets': {'list': ['rel']}},
+                                            'instructions': ['nop'] * steps_before + ['jre @ARG(0)'] + ['nop'] * steps_after}]}}
+                for addr in (0x200, 0x2FF):
+                    jaddr = addr + steps_before
+                    for off in sorted({lo - 1, lo, lo + 1, hi - 1, hi, hi + 1, 0}):
+                        target = jaddr + off + (1 if from_end else 0)
+                        ok = lo <= off <= hi
+                        exp = None
+                        if ok:
+                            exp = bytes([0] * steps_before + [0xEF, off & 0xFF] + [0] * steps_after)
+                        one(acc, isa, f'mjre {target}', exp, 'relative-in-macro', addr=addr,
+                            why=f'offset {off} outside {lo}..{hi} (step at {jaddr:#x}, from_end={from_end})')
 
 
 def judge(spec, outcomes):
